@@ -521,7 +521,20 @@ class Executor:
                 nty = hint if hint is not None else T.TDict(kv0.ty, v.ty)
                 base = coerce(base, nty)
             kv = coerce(ev.eval(state, sl), base.ty[1])
-            write_ref(state, base_ref, dict_store(base, kv.term, coerce(v, base.ty[2]).term))
+            try:
+                stored = coerce(v, base.ty[2]).term
+            except Unsupported:
+                # a scalar stored under a key of a dict whose declared value type is a container
+                # (bookkeeping entries such as metadata['flattened'] = True): the entry becomes an
+                # arbitrary value of the declared type - an over-approximation, never an assumption
+                if not (v.ty in (T.BOOL, T.INT, T.REAL, T.NAME, T.NONE) and T.is_mutable(base.ty[2])):
+                    raise
+                hv = fresh(base.ty[2], 'illtyped_store')
+                state.assume(*wf(hv))
+                stored = hv.term
+                ctx.notes.append(f"L{node.lineno}: value of type {T.show(v.ty)} stored into "
+                                 f"{T.show(base.ty)}: entry havocked")
+            write_ref(state, base_ref, dict_store(base, kv.term, stored))
             if isinstance(val_node, ast.Name) and T.is_mutable(v.ty):
                 state.env[val_node.id] = Ref(base_ref.cid, base_ref.path + (('key', kv.term),))
             return
